@@ -47,6 +47,13 @@ import (
 // shutdown must finalize the pipeline, not race the shutdown with a restart.
 var errGracefulShutdownDuringRecovery = cerrors.New("graceful shutdown during recovery backoff")
 
+// errUserStopDuringRecovery is the operator-stop counterpart: Stop accepted the
+// request (it admits StatusRecovering and marked the run as intentionally
+// stopped) while the pipeline was parked in the recovery backoff wait. It is
+// never surfaced to callers: the cleanup goroutine maps it to a terminal
+// StatusUserStopped instead of restarting a pipeline the operator just stopped.
+var errUserStopDuringRecovery = cerrors.New("user stop during recovery backoff")
+
 type FailureEvent struct {
 	// ID is the ID of the pipeline which failed.
 	ID    string
@@ -1619,6 +1626,14 @@ func (s *Service) runPipeline(rp *runnablePipeline) error {
 					// backoff wait: the old entry must stay in runningPipelines
 					// until Start swaps in the new one.
 					return nil
+				case cerrors.Is(recoveryErr, errUserStopDuringRecovery):
+					// An operator stop was accepted while we were parked in the
+					// backoff wait. Finalize as a user stop and run the cleanup
+					// tail so the entry is removed.
+					err = nil
+					if updateErr := s.pipelines.UpdateStatus(ctx, rp.pipeline.ID, pipeline.StatusUserStopped, ""); updateErr != nil {
+						return updateErr
+					}
 				case cerrors.Is(recoveryErr, errGracefulShutdownDuringRecovery):
 					// A graceful shutdown began while we were parked in the
 					// backoff wait. Finalize as a system stop, not a degraded
@@ -1806,6 +1821,13 @@ func (s *Service) StartWithBackoff(ctx context.Context, rp *runnablePipeline) er
 	// concurrent restart still wins.
 	if s.isGracefulShutdown.Load() {
 		return errGracefulShutdownDuringRecovery
+	}
+
+	// Likewise, if an operator stop was accepted for this run while we waited
+	// (Stop admits StatusRecovering and returned nil), honour it: restarting
+	// now would resurrect a pipeline the operator was told is stopping.
+	if rp.intentionalStop.Load() {
+		return errUserStopDuringRecovery
 	}
 
 	return s.Start(ctx, rp.pipeline.ID)
